@@ -979,7 +979,7 @@ func randParseDurTextC14(rng *rand.Rand) string {
 }
 
 func genC14(rng *rand.Rand, tier string) (cases []string) {
-	scale := 1
+	scale := 3
 	if tier == "thorough" {
 		scale = 150
 	}
